@@ -733,6 +733,8 @@ package gedcom
 //@   ensures old-iff: nOld == ite(real(age.Age) > 100.0 * real(YEARNS), 1, 0)
 //@   ensures count: len(result) == len(warnings) + nYoung + nOld
 //@   ensures names: implies(nYoung + nOld > 0, who == spouse)
+//@   ensures grows: len(result) >= len(warnings) && len(result) <= len(warnings) + 2
+//@   assigns E.gedcom.Warning, alloc
 
 // The accessors the emitters read are abstracted, for C20 only, as ghost
 // functions of the node they are called on (deterministic, no side effect the
@@ -832,10 +834,6 @@ package gedcom
 //@   trusted
 //@   pure
 //@   ensures result == indIs(node, individual)
-//@ func IndividualNodePairs.Has
-//@   only C20
-//@   trusted
-//@   pure
 
 // child born before parent: per child, one warning for the father iff both
 // births are valid and the child's is before the father's; same for the mother.
@@ -852,6 +850,7 @@ package gedcom
 //@   loop 1 iter father-iff: nF - old(nF) == ite(dValid(birthOf(indOfC(child))) && dValid(birthOf(father)) && dBefore(birthOf(indOfC(child)), birthOf(father)), 1, 0)
 //@   loop 1 iter mother-iff: nM - old(nM) == ite(dValid(birthOf(indOfC(child))) && dValid(birthOf(mother)) && dBefore(birthOf(indOfC(child)), birthOf(mother)), 1, 0)
 //@   loop 1 invariant count: len(warnings) == nF + nM
+//@   loop 1 iter grows: len(warnings) - old(len(warnings)) == (nF - old(nF)) + (nM - old(nM))
 //@   ensures count: len(result) == nF + nM
 
 // individual too old.
@@ -913,9 +912,24 @@ package gedcom
 //@   oncall DateRange.Duration#1 do w1 = result.Duration
 //@   oncall DateRange.Duration#2 do w2 = result.Duration
 //@   oncall IndividualNode.Is do same = result
-//@   oncall IndividualNodePairs.Has do hasP = result
+//@   ghost nHas int = 0
+//@   oncall IndividualNodePairs.Has do hasP = result; nHas = nHas + 1
+//@   oncall IndividualNodePairs.Has check asks: arg1 != nil && arg1.Left == indOfC(child1) && arg1.Right == indOfC(child2)
+//@   loop 2 iter dedupe-asked: implies(nS > old(nS), nHas > old(nHas))
+//@   loop 2 iter remembered: len(pairs) - old(len(pairs)) == nS - old(nS)
 //@   oncall NewSiblingsBornTooCloseWarning do nS = nS + 1
 //@   oncall NewSiblingsBornTooCloseWarning check names: arg0 == child1 && arg1 == child2
 //@   loop 2 invariant narrow1: w1 < NINEMONTHS
+//@   loop 1 invariant pairsok: forall(i, 0, len(pairs), pairs[i] != nil)
+//@   loop 2 invariant pairsok: forall(i, 0, len(pairs), pairs[i] != nil)
 //@   loop 2 iter iff: nS - old(nS) == ite(!same && isnil(err) && w2 < NINEMONTHS && min.Duration >= TWODAYS && (min.Duration < NINEMONTHS || max.Duration < NINEMONTHS) && !hasP, 1, 0)
 //@   loop 1 iter wide1: implies(w1 >= NINEMONTHS, nS == old(nS))
+
+// The pair list is symmetric: a pair is found in either order.
+//@ func IndividualNodePairs.Has
+//@   props C20
+//@   requires findPair != nil && forall(i, 0, len(pairs), pairs[i] != nil)
+//@   loop 1 invariant none: forall(j, 0, rangeindex + 1, !((indIs(pairs[j].Left, findPair.Left) && indIs(pairs[j].Right, findPair.Right)) || (indIs(pairs[j].Left, findPair.Right) && indIs(pairs[j].Right, findPair.Left))))
+//@   loop 1 invariant bound: rangeindex < len(pairs)
+//@   ensures symmetric: result == exists(j, 0, len(pairs), (indIs(pairs[j].Left, findPair.Left) && indIs(pairs[j].Right, findPair.Right)) || (indIs(pairs[j].Left, findPair.Right) && indIs(pairs[j].Right, findPair.Left)))
+//@   assigns nothing
